@@ -61,6 +61,8 @@ fn near_misses(suffix: bool) -> Vec<(&'static str, bool)> {
         ("app_r00001.log.gz.gz", false),
         ("app_r2024.log", false),
         ("app_r9999-99-99_99-99-99.log", false),
+        // the shape of a timestamp, but no date of the calendar
+        ("app_r2023-02-30_10-00-00.log", false),
         ("app_r2024-05-15_12-30-10.restart-abcd.log", false),
         ("app_r2024-05-15_12-30-10.restart-", false),
         ("app_rCURRENT.log.old", false),
@@ -97,15 +99,21 @@ fn near_misses(suffix: bool) -> Vec<(&'static str, bool)> {
         // directory (see SYMLINKS) named like rotated files
         v.push(("app_r00042.log", true));
         v.push(("app_r00043.log", true));
+        // a named pipe (see FIFOS): reading it would block for ever
+        v.push(("app_r00044.log", true));
     } else {
         v.push(("app_r00001.log", false));
         v.push(("app_r00002.txt", false));
         v.push(("app_r+0042", false));
         v.push(("app_r00042", true));
         v.push(("app_r00043", true));
+        v.push(("app_r00044", true));
     }
     v
 }
+
+/// "directories" of the alphabet that are created as named pipes
+const FIFOS: [&str; 2] = ["app_r00044.log", "app_r00044"];
 
 /// "directories" of the alphabet that are created as a symlink to a directory next to the log
 /// directory
@@ -203,6 +211,7 @@ fn selectors(c: &Case) -> Vec<LogfileSelector> {
 fn meta_of(p: &std::path::Path) -> (Vec<u8>, u32, i64) {
     match std::fs::symlink_metadata(p) {
         Ok(md) if md.is_dir() => (b"<dir>".to_vec(), md.mode(), md.mtime()),
+        Ok(md) if std::os::unix::fs::FileTypeExt::is_fifo(&md.file_type()) => (b"<fifo>".to_vec(), md.mode(), md.mtime()),
         Ok(md) => (std::fs::read(p).unwrap_or_default(), md.mode(), md.mtime()),
         Err(_) => (b"<missing>".to_vec(), 0, 0),
     }
@@ -217,6 +226,11 @@ fn run(c: &Case, foreign: &[(&'static str, bool)]) -> Result<(RunObs, BTreeMap<S
             let target = env.root.path().join("archive.d");
             std::fs::create_dir_all(&target).map_err(|e| e.to_string())?;
             std::os::unix::fs::symlink(&target, &p).map_err(|e| e.to_string())?;
+        } else if *is_dir && FIFOS.contains(n) {
+            let cp = std::ffi::CString::new(p.to_string_lossy().as_bytes()).map_err(|e| e.to_string())?;
+            if unsafe { libc::mkfifo(cp.as_ptr(), 0o644) } != 0 {
+                return Err(format!("mkfifo {}: {}", p.display(), std::io::Error::last_os_error()));
+            }
         } else if *is_dir {
             std::fs::create_dir_all(&p).map_err(|e| e.to_string())?;
             std::fs::write(p.join("inner.log"), b"inner\n").ok();
@@ -277,6 +291,8 @@ fn name_class(n: &str) -> &'static str {
         "APP_r00001.log" | "App_r2020-01-01_00-00-00.log" | "APP_rCURRENT.log" => "basename-in-other-case",
         "app_r00042.log" | "app_r00042" => "directory-named-like-a-log-file",
         "app_r00043.log" | "app_r00043" => "symlink-to-directory-named-like-a-log-file",
+        "app_r00044.log" | "app_r00044" => "named-pipe-named-like-a-log-file",
+        "app_r2023-02-30_10-00-00.log" => "timestamp-shape-but-no-date",
         "app_r9999-99-99_99-99-99.log" | "app_r2024-05-15_12-30-10.restart-abcd.log" | "app_r2024-05-15_12-30-10.restart-" => "timestamp-like",
         "app_r00000.log.d" => "directory",
         "app_r00001.log.gz.gz" | "app_r00007.gz" | "app_r00001.log.bak" | "app_rCURRENT.log.old" => "extra-extension",
@@ -387,6 +403,7 @@ fn run_unit(tier: &str, unit: usize, out: &mut Out) {
         }
     };
     out.evaluations += 1;
+    dir_in_the_way(c, &clean, unit, out);
     let names = foreign_names(c);
     let max = if tier == "quick" { 2 } else { 3 };
     // singletons first: a set is only explored if none of its proper subsets already failed with
@@ -425,10 +442,84 @@ fn run_unit(tier: &str, unit: usize, out: &mut Out) {
     }
 }
 
+/// A directory that has exactly the name of a file that the logger is going to create by
+/// rotation: the directory stays as it is, nothing is reported, and no record is lost (the names
+/// of the rotated files may differ from the clean run, so only the record stream is compared).
+fn dir_in_the_way(c: &Case, clean: &RunObs, unit: usize, out: &mut Out) {
+    let cur = c.cfg.naming().and_then(NamingK::current_infix);
+    let targets: Vec<String> = clean
+        .family
+        .iter()
+        .map(|f| f.0.clone())
+        .filter(|n| !n.ends_with(".gz") && cur.map_or(true, |ci| !n.contains(ci)))
+        // only where the code itself treats any entry at the target path as a collision
+        // (`exists()` on the plain timestamp name); a directory at the path of a numbered file or
+        // of a ".restart-" sibling makes the rename fail: an environment fault, reported as such
+        // (C19), and outside what this property promises
+        .filter(|n| !n.contains(".restart-") && !matches!(c.cfg.naming(), Some(NamingK::Numbers | NamingK::NumbersDirect) | None))
+        .collect();
+    for t in targets {
+        let name: &'static str = Box::leak(t.clone().into_boxed_str());
+        let case = json!({"unit": unit, "dir_in_the_way": t});
+        let v = judge_dir(c, name, clean, case.clone());
+        out.evaluations += 1;
+        out.count("directory_in_the_way_cases", 1);
+        out.outcome("dir-in-the-way");
+        if let Some(v) = v {
+            match judge_dir(c, name, clean, case) {
+                Some(v2) if v2.key() == v.key() => out.violation(v),
+                _ => out.violation(Violation::new("nondeterministic", "replay-diverged", v.detail.clone(), v.case.clone())),
+            }
+        }
+    }
+}
+
+fn judge_dir(c: &Case, name: &'static str, clean: &RunObs, case: Value) -> Option<Violation> {
+    let cc = c.clone();
+    let key = format!("directory-named-like-the-rotation-target/{}/{}", c.cfg.naming().map_or("none", NamingK::short), match c.cfg.rotation.map(|r| r.2) {
+        Some(CleanK::Log(_)) => "keeplog",
+        Some(CleanK::Gz(_)) => "gz",
+        _ => "never",
+    });
+    let ctx = format!("cfg={:?} restart_append={} directory {name}", c.cfg, c.restart_append);
+    match run_isolated(Duration::from_secs(30), move || run(&cc, &[(name, true)])) {
+        Ran::Done(Ok((pop, before))) => {
+            match pop.others.get(name) {
+                Some(a) if Some(a) == before.get(name) => {}
+                other => return Some(Violation::new("foreign-modified", key, format!("{ctx}: before {:?} after {other:?}", before.get(name)), case)),
+            }
+            if pop.errs != clean.errs {
+                return Some(Violation::new("errors-differ", key, format!("{ctx}: error channel clean {:?}, with the directory {:?}", clean.errs, pop.errs), case));
+            }
+            let cat = |o: &RunObs| o.family.iter().filter(|f| !f.0.ends_with(".gz")).flat_map(|f| f.1.clone()).collect::<Vec<u8>>();
+            if clean.family.len() != pop.family.len() || cat(clean) != cat(&pop) {
+                return Some(Violation::new(
+                    "family-differs",
+                    key,
+                    format!("{ctx}: family in the clean directory {:?}, with the directory {:?}", clean.family.iter().map(|f| (&f.0, f.1.len())).collect::<Vec<_>>(), pop.family.iter().map(|f| (&f.0, f.1.len())).collect::<Vec<_>>()),
+                    case,
+                ));
+            }
+            None
+        }
+        Ran::Done(Err(e)) => Some(Violation::new("run-error", key, format!("{ctx}: {e}"), case)),
+        Ran::Panicked(m) => Some(Violation::new("panic", key, format!("{ctx}: {m}"), case)),
+        Ran::Hung => Some(Violation::new("hang", key, ctx, case)),
+    }
+}
+
 fn replay(case: &Value) -> Vec<Violation> {
     let g = grid();
     let unit = case["unit"].as_u64().unwrap_or(0) as usize;
     let Some(c) = g.get(unit) else { return vec![] };
+    if let Some(t) = case["dir_in_the_way"].as_str() {
+        println!("replay C14: cfg={:?} restart_append={} directory in the way: {t}", c.cfg, c.restart_append);
+        let cc = c.clone();
+        return match run_isolated(Duration::from_secs(30), move || run(&cc, &[])) {
+            Ran::Done(Ok((clean, _))) => judge_dir(c, Box::leak(t.to_string().into_boxed_str()), &clean, case.clone()).into_iter().collect(),
+            other => vec![Violation::new("clean-run-failed", "machinery", format!("{other:?}"), case.clone())],
+        };
+    }
     let all = near_misses(c.cfg.parts.suffix.is_some());
     let foreign: Vec<(&'static str, bool)> = case["set"]
         .as_array()
